@@ -7,14 +7,14 @@ git checkout -q -- . ; rm -f tests/seed_demo.rs
 {
 echo "== clean: demo must pass"
 cp $d/demo.rs tests/seed_demo.rs
-cargo test --offline --test seed_demo 2>&1 | grep -E "^test result|error(\[|:)" | head -3
+cargo test --offline --test seed_demo 2>&1 | grep -E "^test result|^error(\[|:)" | head -3
 rm -f tests/seed_demo.rs
 echo "== patched: suite must pass"
 git apply $d/patch.diff || echo "PATCH DOES NOT APPLY"
 cargo test --workspace --offline 2>&1 | grep -E "^test result|FAILED|error(\[|:)" | sort | uniq -c | head -8
 echo "== patched: demo must fail"
 cp $d/demo.rs tests/seed_demo.rs
-cargo test --offline --test seed_demo 2>&1 | grep -E "^test result|error(\[|:)" | head -3
+cargo test --offline --test seed_demo 2>&1 | grep -E "^test result|^error(\[|:)" | head -3
 rm -f tests/seed_demo.rs
 git checkout -q -- .
 } > $out 2>&1
